@@ -17,6 +17,12 @@ func Unmarshal(data []byte, value interface{}) error {
 func (p *Plenc) Marshal(data []byte, value interface{}) ([]byte, error) {
 	typ := reflect.TypeOf(value)
 	ptr := unpackEFace(value).data
+	if typ.Kind() != reflect.Ptr && typ.Kind() != reflect.Map && isDirectIface(typ) {
+		// A struct or array passed by value whose only content is a single
+		// pointer-shaped word is stored directly in the interface's data
+		// word, so that word is the value rather than a pointer to it.
+		ptr = unsafe.Pointer(&(*eface)(unsafe.Pointer(&value)).data)
+	}
 	if typ.Kind() == reflect.Ptr {
 		typ = typ.Elem()
 
@@ -40,6 +46,20 @@ func (p *Plenc) Marshal(data []byte, value interface{}) ([]byte, error) {
 	}
 
 	return c.Append(data, ptr, nil), nil
+}
+
+// isDirectIface reports whether values of typ are stored directly in an
+// interface's data word rather than behind a pointer.
+func isDirectIface(typ reflect.Type) bool {
+	switch typ.Kind() {
+	case reflect.Ptr, reflect.Map, reflect.Chan, reflect.Func, reflect.UnsafePointer:
+		return true
+	case reflect.Struct:
+		return typ.NumField() == 1 && isDirectIface(typ.Field(0).Type)
+	case reflect.Array:
+		return typ.Len() == 1 && isDirectIface(typ.Elem())
+	}
+	return false
 }
 
 func (p *Plenc) Unmarshal(data []byte, value interface{}) error {
